@@ -50,6 +50,26 @@ class SinglePreemption(Schedule):
         return min(others) if others else 0
 
 
+class DoublePreemption(Schedule):
+    """Thread 0 runs `i` yield points, thread 1 runs `j` yield points, thread 0 runs to completion, thread 1 finishes."""
+
+    def __init__(self, i, j):
+        self.i, self.j = i, j
+        self.back = False
+
+    def at_yield(self, tid, count, alive):
+        if tid == 0 and count == self.i and 1 in alive and not self.back:
+            return 1
+        if tid == 1 and count == self.j and 0 in alive and not self.back:
+            self.back = True
+            return 0
+        return tid
+
+    def at_finish(self, tid, alive):
+        self.back = True
+        return min(alive)
+
+
 class Bursts(Schedule):
     """Cyclic list of (thread, burst length): the named thread runs that many yield points, then the next entry."""
 
